@@ -248,20 +248,36 @@ fn api_case(model: &mut model::Model, rep: &mut Report, rng: &mut Rng, big: bool
         }
         // multi_lookup on single-column indexes
         if !multi {
-            for _ in 0..4 {
-                let k = rng.range(1, 4) as usize;
-                let vals: Vec<SqlValue> = (0..k).map(|_| rng.pick(&lits).clone()).collect();
+            for round in 0..8 {
+                // value lists in arbitrary (often descending) order, with duplicates and absent values
+                let k = rng.range(1, 6) as usize;
+                let mut vals: Vec<SqlValue> = (0..k).map(|_| rng.pick(&lits).clone()).collect();
+                if round % 2 == 0 {
+                    vals.sort_by(|a, b| venc(b).cmp(&venc(a)));
+                    let d = vals[0].clone();
+                    vals.push(d);
+                }
                 let got = data.multi_lookup(&vals);
                 let req = format!("lookup {} (vals {})", keys_sx, vals.iter().map(|v| venc(v)).collect::<Vec<_>>().join(" "));
                 let reply = model.ask(&req);
                 rep.traces_validated += 1;
                 rep.count("api_multi_lookup");
-                let mut a = parse_pos(&reply).unwrap_or_default();
-                let mut b = got.clone();
-                a.sort();
-                b.sort();
+                // exact sequences: the row ids come back in index-key order (the executor relies
+                // on it when the same index serves ORDER BY), whatever the order of the IN list
+                let a = parse_pos(&reply).unwrap_or_default();
+                let b = got.clone();
+                // direct oracle: keys of the returned positions are non-decreasing in key order, no repeats
+                let ks: Vec<String> = b.iter().map(|p| venc(&keys[*p][0])).collect();
+                let mut uniq = b.clone();
+                uniq.sort();
+                uniq.dedup();
+                let key_of = |p: &usize| data.iter().position(|(_, ps)| ps.contains(p));
+                let in_key_order = b.windows(2).all(|w| key_of(&w[0]) <= key_of(&w[1]));
+                if uniq.len() != b.len() || !in_key_order {
+                    rep.fail(FailKind::Oracle, None, "multi_lookup: positions repeated or not in index-key order", &format!("{}-- index {} multi_lookup({:?})\nreturned: {:?} (keys {:?})", script, name, vals, got, ks));
+                }
                 if a != b {
-                    rep.fail(FailKind::ModelDiff, None, "multi_lookup: model and engine return different positions", &format!("{}-- model request: {}\nmodel:  {}\nengine: {:?}", script, req, reply, got));
+                    rep.fail(FailKind::ModelDiff, None, "multi_lookup: model and engine return different position sequences", &format!("{}-- model request: {}\nmodel:  {}\nengine: {:?}", script, req, reply, got));
                 }
             }
         }
@@ -397,6 +413,29 @@ with:    {}", tw.indexed.log.join(";\n"), q, p.brief(), i.brief()));
     }
 }
 
+/// deterministic: unsorted IN lists with duplicates while the same single-column index serves ORDER BY
+fn probe_in_list_order(rep: &mut Report) {
+    for (decl, idx, dir) in [("a INTEGER NOT NULL", "CREATE INDEX ia ON t (a)", ""), ("a INTEGER", "CREATE INDEX ia ON t (a DESC)", " DESC")] {
+        let mut tw = Twin { plain: Db::new(), indexed: Db::new() };
+        tw.both(&format!("CREATE TABLE t (id INTEGER PRIMARY KEY, {}, b INTEGER, s VARCHAR(10))", decl));
+        tw.both("INSERT INTO t VALUES (1, 3, 1, 'x'), (2, 1, 2, 'y'), (3, 4, 3, 'z'), (4, 2, 4, 'w'), (5, 2, 5, 'v'), (6, 5, 6, 'u'), (7, 1, 7, 't'), (8, 6, 8, 'r')");
+        tw.indexed.exec(idx);
+        for w in ["a IN (4, 1, 3, 2, 2)", "a IN (5, 2, 4, 1, 1) AND b >= 3", "a IN (6, 6, 2.0, 1)"] {
+            for lim in ["", " LIMIT 3", " LIMIT 2 OFFSET 1", " LIMIT 10 OFFSET 4"] {
+                let q = format!("SELECT id, a, b, s FROM t WHERE {} ORDER BY a{}{}", w, dir, lim);
+                let (p, i) = (tw.plain.query(&q), tw.indexed.query(&q));
+                rep.count("deterministic_probes");
+                rep.case(&format!("probe in-list {} {}", idx, q), true);
+                let seq = |o: &Out| o.rows().map(|r| r.iter().map(|x| canon::val(&x[1])).collect::<Vec<_>>());
+                let sorted = i.rows().map(|r| sorted_by(r, 1, !dir.is_empty())).unwrap_or(false);
+                if seq(&p) != seq(&i) || !sorted || (lim.is_empty() && p.rows().map(|r| bag(r)) != i.rows().map(|r| bag(r))) {
+                    rep.fail(FailKind::Oracle, None, "IN list + index-served ORDER BY: sequence differs from the twin without index or is not sorted", &format!("{}; {}\n-- query: {}\nwithout: {}\nwith:    {}", tw.indexed.log.join("; "), idx, q, p.brief(), i.brief()));
+                }
+            }
+        }
+    }
+}
+
 fn twin_case(rep: &mut Report, rng: &mut Rng, n: usize, nq: usize) {
     let mut tw = Twin { plain: Db::new(), indexed: Db::new() };
     let a_not_null = rng.chance(1, 3);
@@ -485,10 +524,45 @@ fn twin_case(rep: &mut Report, rng: &mut Rng, n: usize, nq: usize) {
     };
     tw.plain.keep_log = false;
     tw.indexed.keep_log = false;
+    // the first index serves ORDER BY a when it is a single-column index on a and its order is the
+    // sort order (DESC, or ASC over a NOT NULL column)
+    let served: Option<bool> = if ddl[0].starts_with("CREATE INDEX ia ON t (a") {
+        if ddl[0].contains("DESC") {
+            Some(true)
+        } else if a_not_null {
+            Some(false)
+        } else {
+            None
+        }
+    } else {
+        None
+    };
     for _ in 0..nq {
         let col = *rng.pick(&["a", "a", "s"]);
         let pred = gen_pred(rng, col);
+        let mut keys_only = false;
         let (q, ord): (String, Option<(usize, bool)>) = match rng.below(9) {
+            _ if served.is_some() && rng.chance(1, 3) => {
+                // unsorted IN list with duplicates + ORDER BY served by the same index
+                let d = served.unwrap();
+                let mut list: Vec<String> = (0..rng.range(2, 6)).map(|_| rng.range(-2, 7).to_string()).collect();
+                list.sort_by(|x, y| y.parse::<i64>().unwrap().cmp(&x.parse::<i64>().unwrap()));
+                if rng.chance(1, 2) {
+                    let k = rng.below(list.len() as u64) as usize;
+                    list.swap(0, k);
+                }
+                let dup = list[list.len() - 1].clone();
+                list.insert(0, dup);
+                let extra = if rng.chance(1, 3) { format!(" AND b >= {}", rng.range(0, 2)) } else { String::new() };
+                let lim = if rng.chance(1, 2) {
+                    keys_only = true;
+                    format!(" LIMIT {} OFFSET {}", rng.range(0, 4), rng.range(0, 3))
+                } else {
+                    String::new()
+                };
+                rep.count("twin_in_list_index_served_order");
+                (format!("SELECT id, a, b, s FROM t WHERE a IN ({}){} ORDER BY a{}{}", list.join(", "), extra, if d { " DESC" } else { "" }, lim), Some((1, d)))
+            }
             0 => (format!("SELECT id, a, b, s FROM t WHERE {}", pred), None),
             1 => (format!("SELECT id, a, b, s FROM t WHERE {} ORDER BY b", pred), Some((2, false))),
             2 => (format!("SELECT DISTINCT {} FROM t WHERE {}", col, pred), None),
@@ -521,7 +595,14 @@ fn twin_case(rep: &mut Report, rng: &mut Rng, n: usize, nq: usize) {
             (Some(pr), Some(ir)) => {
                 let nontrivial = !pr.is_empty() && pr.len() < total.max(1);
                 rep.case(&case_id, nontrivial);
-                if bag(pr) != bag(ir) {
+                let differs = if keys_only {
+                    // LIMIT/OFFSET over ties: compare the key sequences
+                    let seq = |r: &Vec<Vec<SqlValue>>| r.iter().map(|x| canon::val(&x[1])).collect::<Vec<_>>();
+                    seq(pr) != seq(ir)
+                } else {
+                    bag(pr) != bag(ir)
+                };
+                if differs {
                     rep.fail(FailKind::Oracle, None, &format!("result multiset depends on the existence of an index [{}]", ddl.join("; ")), &replay(&tw, &q, &p, &i));
                 }
                 if let Some((k, d)) = ord {
@@ -568,6 +649,7 @@ fn main() {
         api_case(&mut model, &mut rep, &mut r, i % 3 == 0, n, if n > 50 { 60 } else { 150 });
     }
     probe_f64_collapse(&mut rep);
+    probe_in_list_order(&mut rep);
     let nt = args.n(500, 12000);
     for i in 0..nt {
         let mut r = rng.fork();
